@@ -11,7 +11,7 @@ R-C15-5  contradiction rule: the decoder refuses an empty L/R vector, so every o
 """
 from bpsa.facts import callee_decl, callee_name
 from bpsa.normal import canon
-from bpsa.terms import walk, short, TERM_IDX
+from bpsa.terms import walk, short, TERM_IDX, T
 from .common import guard_table
 
 LEVEL_TEXT = ('Static analysis (container-order model of the encoder, definition order and value terms of the decoder, guard normal forms, call graph). '
@@ -27,6 +27,69 @@ ORDER = ['extension_degree', 'd1', 'a', 'a1', 'b', 'r1', 's1', 'li', 'ri']
 SCALARS = {'d1', 'r1', 's1'}
 POINTS = {'a', 'a1', 'b', 'li', 'ri'}
 REDUCING = ('from_bytes_mod_order', 'from_bits', 'from_bits_clamped', 'from_bytes_mod_order_wide', 'from_uniform_bytes', 'hash_from_bytes')
+
+
+def _first_split(t):
+    """the outermost `split_at(U, n).0` inside a parsed field's term: (split term, U) or None"""
+    for x in walk(t):
+        if x.tag == 'field' and x[1] == '0' and x[2].tag == 'adapt' and x[2][1] in ('split_at', 'split_at_checked') and len(x[2].args) >= 3:
+            return x[2], x[2][2]
+    return None
+
+
+def _strip_mut(t):
+    while t.tag == 'mut':
+        t = t[1]
+    return t
+
+
+def cursor_order(ctx, terms):
+    """(True/False/None, explanation): in a decoder of the form `x = rest.split_at(n).0; rest = rest.split_at(n).1; ..` every field is
+    the head of what the previous field left: the nesting of the split terms *is* the order.  None when the terms are not of that form."""
+    fixed = ['a', 'a1', 'b', 'r1', 's1']
+    splits = {}
+    for f in fixed + ['li', 'ri']:
+        t = terms.get(f)
+        if t is None:
+            return None, 'field %s missing' % f
+        if f in ('li', 'ri'):
+            # element pushed per iteration
+            pushed = [e[3][0] for e in (t[2] if t.tag == 'mut' else ()) if e.tag == 'ev' and e[2].endswith('::push') and e[3]]
+            if len(pushed) != 1:
+                return None, '%s is not filled by one push' % f
+            t = pushed[0]
+        fs = _first_split(t)
+        if fs is None:
+            return None, 'no split_at head in %s' % f
+        if canon(fs[0][3]) != '32':
+            return False, 'field %s is cut with size %s' % (f, canon(fs[0][3]))
+        splits[f] = fs
+    # a1 is the head of a's tail, b of a1's, ..
+    for prev, cur in zip(fixed, fixed[1:]):
+        want = T('field', '1', splits[prev][0])
+        if _strip_mut(splits[cur][1]) is not want:
+            return False, 'field %s is not read from what %s left (it is read from %s)' % (cur, prev, short(splits[cur][1], 80))
+    # within one iteration R is the head of L's tail, and the loop starts with what s1 left
+    if _strip_mut(splits['ri'][1]) is not T('field', '1', splits['li'][0]):
+        return False, 'R is not read from what L left'
+    lv = _strip_mut(splits['li'][1])
+    if lv.tag != 'lv':
+        return None, 'L/R are not read in a loop over the cursor'
+    inits = [_strip_mut(y) for y in ctx.eng.lv_defs(lv)]
+    if not any(y is T('field', '1', splits['s1'][0]) for y in inits):
+        return None, 'the L/R loop does not visibly start from what s1 left'
+    if not any(y is T('field', '1', splits['ri'][0]) for y in inits):
+        return False, 'the L/R loop does not continue from what R left'
+    # d1 precedes a: a's source is the slice after the tag, advanced by the d1 closure
+    ua = splits['a'][1]
+    base = _strip_mut(ua)
+    after_tag = canon(base) in ('p1[range(1,None)]', 'split_at(p1,1).1') or (base.tag == 'field' and base[1] == '1' and canon(base[2]).startswith('split_at(p1,1'))
+    advanced = ua.tag == 'mut' and any(e.tag == 'ev' and e[1] == 'store' for e in ua[2])
+    d1 = terms.get('d1')
+    d1_from = d1 is not None and any(x is base for x in walk(d1))
+    if not (after_tag and advanced and d1_from):
+        return None, 'd1 / tag prefix not in the recognised form (after tag: %s, advanced by d1: %s)' % (after_tag, advanced and d1_from)
+    return True, 'tag, d1, then a, a1, b, r1, s1 and (L, R) pairs are each cut from what the previous one left (32 bytes each)'
 
 
 def run(ctx, with_contradiction=True):
@@ -45,14 +108,52 @@ def run(ctx, with_contradiction=True):
         return
     evs = sorted(ix.events_on(('L', bufs[0])), key=lambda e: pos.get(e['bb'], 1 << 30))
     enc_seq = []
+    from bpsa.terms import mk_elem
+    expanded = []
     for e in evs:
         t = ctx.eng.event_term(enc, e)
+        inner = t
+        if e['kind'] == 'closure':
+            pass
+        arg = t[3][0] if t.tag == 'ev' and t[3] else None
+        if arg is not None and e['decl'].split('::')[-1] in ('extend', 'extend_from_slice', 'append'):
+            # what is appended, element by element: `extend(xs.iter().flat_map(|x| x.as_bytes()))`, `extend([a, b, c].iter().flat_map(..))`
+            src, fns_ = arg, []
+            while True:
+                s0 = src
+                while s0.tag == 'mut':
+                    s0 = s0[1]
+                if s0.tag == 'flatten':
+                    src = s0[1]
+                elif s0.tag == 'map':
+                    fns_.append(s0[2])
+                    src = s0[1]
+                elif s0.tag == 'adapt' and s0[1] in ('copied', 'cloned'):
+                    src = s0[2]
+                else:
+                    src = s0
+                    break
+            if src.tag == 'array' and fns_:
+                for x in src.args:
+                    v = x
+                    for f_ in reversed(fns_):
+                        v = ctx.eng.apply(f_, (v,))
+                    expanded.append((e, T('ev', 'call', e['decl'], (v,), t[4]), False))
+                continue
+            if fns_:
+                el = mk_elem(ctx.eng, arg)
+                while el.tag == 'elem' and el[1].tag in ('call',):
+                    el = el[1]          # the bytes of one encoded element, not one byte of it
+                expanded.append((e, T('ev', 'call', e['decl'], (el,), t[4]), True))
+                continue
+        expanded.append((e, t, None))
+    for e, t, forced_each in expanded:
         fs = [x[1] for x in walk(t) if x.tag == 'field' and x[2].tag == 'param']
         kind = 'scalar' if any(x.tag == 'call' and x[1].endswith('Scalar::as_bytes') for x in walk(t)) else \
                'point' if any(x.tag == 'call' and x[1].endswith('as_fixed_bytes') for x in walk(t)) else \
                'byte' if any(x.tag == 'call' and x[1].endswith('to_le_bytes') for x in walk(t)) or \
                (e['decl'].endswith('::push') and any(x.tag == 'cast' and 'u8' in [y for y in x.args if isinstance(y, str)] for x in walk(t))) else '?'
-        each = any(x.tag == 'elem' for x in walk(t))
+        each = any(x.tag == 'elem' for x in walk(t)) if forced_each is None else (forced_each or any(x.tag == 'elem' for x in walk(t)))
         ads = ctx.adapters(t)
         enc_seq.append((fs[0] if len(fs) == 1 else tuple(fs), kind, each, tuple(ads), e))
     want_enc = [('extension_degree', 'byte', False), ('d1', 'scalar', True), ('a', 'point', False), ('a1', 'point', False), ('b', 'point', False),
@@ -71,7 +172,12 @@ def run(ctx, with_contradiction=True):
     if len(enc_seq) >= 9:
         l_e, r_e = enc_seq[7][4], enc_seq[8][4]
         same_loop = tuple(cfg.loop_of.get(l_e['bb'], [])) == tuple(cfg.loop_of.get(r_e['bb'], [])) and cfg.loop_of.get(l_e['bb'])
-        rep.check(bool(same_loop) and ctx.must_follow(enc, l_e['bb'], r_e['bb']), 'R-C15-1', 'R-C15-1/encoder/interleaved', 'L and R are written pairwise (L then R) in one loop',
+        follows = ctx.must_follow(enc, l_e['bb'], r_e['bb'])
+        if l_e['kind'] == 'closure' and r_e['kind'] == 'closure' and l_e['cbody'].key == r_e['cbody'].key and l_e['bb'] == r_e['bb']:
+            # both written by one closure applied to each (l, r) pair (`izip!(li, ri).for_each(|(l, r)| ..)`): order inside the closure
+            same_loop = True
+            follows = ctx.must_follow(l_e['cbody'], l_e['inner']['bb'], r_e['inner']['bb'])
+        rep.check(bool(same_loop) and follows, 'R-C15-1', 'R-C15-1/encoder/interleaved', 'L and R are written pairwise (L then R) in one loop',
                   'L and R are not written pairwise in one loop', ctx.where(enc, l_e['bb']))
 
     # ---- decoder: the aggregate, definition order of its operands, kinds
@@ -115,13 +221,28 @@ def run(ctx, with_contradiction=True):
         # (components of a decoded pair the value is taken from, the pair sources)
         fs = [x for x in walk(t) if x.tag == 'field' and x[1] in ('0', '1') and x[2].tag != 'field']
         return sorted({x[1] for x in fs}), {x[2].id for x in fs}
-    if 'li' in terms and 'ri' in terms:
+    cursor_style0 = not any(x.tag == 'adapt' and x[1] == 'chunks_exact' for t_ in terms.values() for x in walk(t_)) and \
+        any(x.tag == 'adapt' and x[1] in ('split_at', 'split_at_checked', 'split_first') for t_ in terms.values() for x in walk(t_))
+    if 'li' in terms and 'ri' in terms and cursor_style0:
+        dec_order = [f for f in dec_order if f not in ('li', 'ri')] + ['li', 'ri']
+    elif 'li' in terms and 'ri' in terms:
         (ci, bi), (cr, br) = comp(terms['li']), comp(terms['ri'])
         rep.check(ci == ['0'] and cr == ['1'] and bi == br and len(bi) == 1, 'R-C15-1', 'R-C15-1/decoder/unzip', 'L is the first and R the second component of each decoded pair',
                   'decoded pairs are assigned li <- .%s, ri <- .%s' % (ci, cr), ctx.where(dec, abb))
         dec_order = [f for f in dec_order if f not in ('li', 'ri')] + ['li', 'ri']
-    rep.check(dec_order == ORDER, 'R-C15-1', 'R-C15-1/decoder/order', 'decoder reads the fields in the order %s' % ORDER,
-              'decoder reads the fields in the order %s, the encoder writes %s' % (dec_order, ORDER), ctx.where(dec, abb))
+    # a decoder that walks the bytes with a hand-written cursor (`rest = rest.split_at(n).1`) instead of chunks_exact: the order in
+    # which the fields are cut off is a property of the sequence of cursor updates, which this rule does not reconstruct -- not decided
+    cursor_style = not any(x.tag == 'adapt' and x[1] == 'chunks_exact' for t_ in terms.values() for x in walk(t_)) and \
+        any(x.tag == 'adapt' and x[1] in ('split_at', 'split_at_checked', 'split_first') for t_ in terms.values() for x in walk(t_))
+    if cursor_style:
+        verdict, why = cursor_order(ctx, terms)
+        if verdict is None:
+            rep.idiom_absent('R-C15-1', 'R-C15-1/decoder/order', 'the decoder uses a hand-written split_at cursor whose chain of updates is not in the recognised form (%s): field order not decided by this rule (encoder order, parsers, guards and serde delegation are)' % why)
+        else:
+            rep.check(verdict, 'R-C15-1', 'R-C15-1/decoder/order', 'cursor decoder: ' + why, 'cursor decoder: ' + why, ctx.where(dec, abb))
+    else:
+        rep.check(dec_order == ORDER, 'R-C15-1', 'R-C15-1/decoder/order', 'decoder reads the fields in the order %s' % ORDER,
+                  'decoder reads the fields in the order %s, the encoder writes %s' % (dec_order, ORDER), ctx.where(dec, abb))
     src_ok = True
     for f in ORDER:
         t = terms.get(f)
@@ -160,8 +281,13 @@ def run(ctx, with_contradiction=True):
         if f != 'extension_degree':
             its = [x for x in walk(t) if x.tag == 'adapt' and x[1] == 'chunks_exact']
             src_ok = src_ok and len({x.id for x in its}) == 1
-    rep.check(src_ok, 'R-C15-1', 'R-C15-1/decoder/one-cursor', 'all elements are taken from one sequential chunks_exact cursor over the bytes after the tag',
-              'fields are parsed from different cursors', ctx.where(dec))
+    if cursor_style:
+        roots_ = {x[2] for t_ in terms.values() for x in walk(t_) if x.tag == 'param'}
+        rep.check(roots_ == {1}, 'R-C15-1', 'R-C15-1/decoder/one-cursor', 'every field is cut out of the one input slice (hand-written cursor)',
+                  'fields are parsed from %s' % sorted(roots_), ctx.where(dec))
+    else:
+        rep.check(src_ok, 'R-C15-1', 'R-C15-1/decoder/one-cursor', 'all elements are taken from one sequential chunks_exact cursor over the bytes after the tag',
+                  'fields are parsed from different cursors', ctx.where(dec))
     # d1 count is the decoded degree
     d1 = terms.get('d1')
     if d1 is not None:
@@ -191,16 +317,25 @@ def run(ctx, with_contradiction=True):
 
     # ---- R-C15-3 decoder guards
     rows = guard_table(ctx, dec, deep=True, expand=True)
-    atoms = [(a, r) for r in rows for a in r['atoms'] if r['eff'] != 'bypass' and not r['ctx']]
+    # (code after a `while remaining.len() >= n {..}` loop runs under that loop's exit condition: a condition on the remaining length
+    # is not a restriction of the inputs the guard applies to)
+    def ctx_ok(r):
+        return all(x[0] == 'cmp' and 'len(' in (x[2] + x[3]) for x in r['ctx'])
+    atoms = [(a, r) for r in rows for a in r['atoms'] if r['eff'] != 'bypass' and ctx_ok(r)]
     def find(pred):
         return [r for a, r in atoms if pred(a)]
-    g1 = find(lambda a: a[0] == 'succ' and 'try_from(' in a[1] and "'first'" in a[1])
+    g1 = find(lambda a: a[0] == 'succ' and 'try_from(' in a[1] and ("'first'" in a[1] or '[0]' in a[1]) and 'p1' in a[1])
     rep.check(bool(g1), 'R-C15-3', 'R-C15-3/degree-valid', 'an invalid degree byte is rejected', 'no guard rejects an invalid degree byte', ctx.where(dec))
     ne = find(lambda a: a[0] == 'cmp' and a[1] == 'Le' and a[2] == '1' and a[3].startswith('len('))
     rep.check(len(ne) >= 2, 'R-C15-3', 'R-C15-3/non-empty-LR', 'empty L / R vectors are rejected (%d guards)' % len(ne), 'only %d non-emptiness guards on L / R' % len(ne), ctx.where(dec))
     lo = find(lambda a: a[0] == 'cmp' and 'into_buffer' in ''.join(a[2:4]))
-    rep.check(bool(lo), 'R-C15-3', 'R-C15-3/no-leftover-element', 'a leftover single element after the L/R pairs is rejected', 'no guard on the tuple iterator\'s leftover buffer', ctx.where(dec))
     rm = find(lambda a: a[0] == 'cmp' and 'remainder' in ''.join(a[2:4]))
+    if cursor_style and not lo and not rm:
+        # one test covers both: whatever the cursor has not consumed must be empty
+        ex = [r for a, r in atoms if a[0] == 'cmp' and a[1] == 'Eq' and a[2] == '0' and a[3].startswith('len(') and r['eff'] != 'bypass' and
+              any(x.tag in ('lv', 'adapt') for x in walk(r['guard'].cond))]
+        lo = rm = ex
+    rep.check(bool(lo), 'R-C15-3', 'R-C15-3/no-leftover-element', 'a leftover single element after the L/R pairs is rejected', 'no guard on the tuple iterator\'s leftover buffer', ctx.where(dec))
     rep.check(bool(rm), 'R-C15-3', 'R-C15-3/no-trailing-bytes', 'trailing bytes that do not fill an element are rejected', 'no guard on the chunk remainder', ctx.where(dec))
     tf = ctx.fn('TryFrom<u8>>::try_from', 'R-C15-3', required=False)
     if tf is not None:
